@@ -2,6 +2,7 @@ package world
 
 import (
 	"bytes"
+	"runtime"
 	"errors"
 	"fmt"
 	"io"
@@ -157,6 +158,9 @@ func normText(s string) string {
 
 func normPanic(r any) string {
 	switch x := r.(type) {
+	case runtime.Error:
+		// index/slice out of range and friends: the same class of failure, the exact text is not part of the claim
+		return "panic(runtime error)"
 	case error:
 		return "panic(error:" + normText(x.Error()) + ")"
 	case string:
